@@ -96,6 +96,10 @@ Theorem C06_seq_period : forall n k, 1 <= n -> n < 0x100000000 -> N.of_nat k = 0
 Proof. exact iter_incr_period. Qed.
 Print Assumptions C06_seq_period.
 
+Example C06_seq_wraps_somewhere :
+  iter_incr 3 0xfffffffe = 2 /\ (0xfffffffe - 1 + N.of_nat 3) mod 0xffffffff + 1 = 2.
+Proof. split; vm_compute; reflexivity. Qed.
+
 (* any number of requests: each accepted, each advancing both sides by one (induction) *)
 Theorem C06_requests : forall md5, (forall x, length (md5 x) = 16%nat) ->
   forall c p a pw, b_pw p = pw ->
